@@ -98,6 +98,25 @@ def extract(root, outdir, workspace=True, log=None):
         raise AnalysisError("cargo +nightly check failed in %s:\n%s" % (root, tail))
 
 
+def crate_deps(root):
+    """crate name -> set of direct (non-dev) workspace dependencies, from `cargo metadata --no-deps`."""
+    env = dict(os.environ, CARGO_NET_OFFLINE="true")
+    out = subprocess.run(["cargo", "metadata", "--offline", "--no-deps", "--format-version", "1"], cwd=root, env=env,
+                         stdout=subprocess.PIPE, stderr=subprocess.PIPE, text=True)
+    if out.returncode != 0:
+        raise AnalysisError("cargo metadata failed: " + out.stderr[-2000:])
+    m = json.loads(out.stdout)
+    pkg2crate = {}
+    for p in m["packages"]:
+        names = [t["name"] for t in p["targets"] if set(t["kind"]) & {"lib", "proc-macro", "bin"}]
+        pkg2crate[p["name"]] = (names[0] if names else p["name"]).replace("-", "_")
+    deps = {}
+    for p in m["packages"]:
+        c = pkg2crate[p["name"]]
+        deps[c] = sorted({pkg2crate[d["name"]] for d in p["dependencies"] if d.get("path") and d.get("kind") is None and d["name"] in pkg2crate})
+    return deps
+
+
 def _load_dir(d):
     docs = {}
     for fn in sorted(os.listdir(d)):
@@ -114,7 +133,7 @@ def _load_dir(d):
 class Facts:
     def __init__(self, docs, root):
         self.root = root
-        self.crates = sorted(docs)
+        self.crates = sorted(c for c in docs if not c.startswith('__'))
         self.fns = {}          # key -> fn
         self.by_path = {}
         self.adts = {}
@@ -122,7 +141,10 @@ class Facts:
         self.consts = {}
         self.statics = []
         self.traits = {}
+        self.deps = docs.get("__deps__", {})
         for c, d in docs.items():
+            if c.startswith("__"):
+                continue
             for f in d["fns"]:
                 if f["key"] in self.fns:
                     # duplicate keys (e.g. two impls for differently instantiated generics)
@@ -151,6 +173,17 @@ class Facts:
             raise AnalysisError("anchor function missing: %s" % key)
         return f
 
+    def deps_closure(self, crate):
+        seen = set()
+        work = [crate]
+        while work:
+            c = work.pop()
+            if c in seen:
+                continue
+            seen.add(c)
+            work.extend(self.deps.get(c, ()))
+        return seen
+
     def fns_in(self, crate):
         return [f for f in self.fns.values() if f["crate"] == crate]
 
@@ -174,6 +207,7 @@ def load(root=None, log=None):
         os.makedirs(d, exist_ok=True)
         extract(root, facts_dir, log=log)
         docs = _load_dir(facts_dir)
+        docs["__deps__"] = crate_deps(root)
         missing = [c for c in EXPECTED_CRATES if c not in docs]
         if missing:
             raise AnalysisError("fact files missing for crates: %s" % missing)
